@@ -119,6 +119,35 @@ func verifC21PutGen() *rapid.Generator[verifC21Put] {
 func TestVerifC21MultiRuleFromPool(t *testing.T) {
 	rec := ev.New("C21", "putsvc-multirule-pool")
 	defer rec.Flush()
+
+	// Observation only: remember every buffer that enters the pool (created by the pool's New,
+	// put by "other users" below, or released by a previous PUT) with its capacity, so that the
+	// buffer modifyECParentObject received can be classified exactly.
+	registry := map[*byte]int{}
+	reg := func(b []byte) {
+		if cap(b) > 0 {
+			registry[&b[:1][0]] = cap(b)
+		}
+	}
+	newCalls := 0
+	origNew := putBytesPool.New
+	defer func() { putBytesPool.New = origNew }()
+	putBytesPool.New = func() any {
+		newCalls++
+		b := origNew().([]byte)
+		reg(b)
+		return b
+	}
+	drain := func() { // empty the pool: it is empty exactly when Get had to call New
+		for range 100000 {
+			c := newCalls
+			_ = getPayload()
+			if newCalls > c {
+				return
+			}
+		}
+	}
+
 	rapid.Check(t, func(t *rapid.T) {
 		puts := rapid.SliceOfN(verifC21PutGen(), 1, 3).Draw(t, "puts")
 		nontrivial := false
@@ -129,19 +158,20 @@ func TestVerifC21MultiRuleFromPool(t *testing.T) {
 		if rec.WantSample() {
 			rec.Sample(fmt.Sprint(puts))
 		}
+		drain()
+		clear(registry)
 		for pi, p := range puts {
 			payload := make([]byte, p.n)
 			verifC21Fill(payload, p.seed)
 
 			// other users of the pool leave dirty buffers of various capacities
-			var lastPrime []byte
 			for _, c := range p.primes {
 				b := make([]byte, c)
 				for i := range b {
 					b[i] = 0xA5
 				}
+				reg(b)
 				putPayload(b)
-				lastPrime = b
 			}
 
 			var hdr object.Object
@@ -158,19 +188,25 @@ func TestVerifC21MultiRuleFromPool(t *testing.T) {
 				t.Fatalf("put #%d %s: modifyECParentObject: %v", pi, p, err)
 			}
 
-			// which buffer did the pool hand out? (measured, not assumed)
-			bufClass := "buf:fresh-or-unknown"
-			if p.n > 0 && len(tgt.objectPayload) > 0 {
-				switch {
-				case lastPrime != nil && cap(lastPrime) > 0 && &lastPrime[:1][0] == &tgt.objectPayload[:1][0]:
+			// which buffer did modifyECParentObject work in? (measured, not assumed)
+			bufClass := "buf:none(empty-payload)"
+			if p.n > 0 {
+				if c, ok := registry[&tgt.objectPayload[:1][0]]; ok {
 					switch {
-					case cap(lastPrime) > p.n:
-						bufClass = "buf:pooled-larger-than-payload"
-					case cap(lastPrime) == p.n:
+					case c > p.n && c == defaultAllocSize:
+						bufClass = "buf:pooled-larger(default-1024)"
+					case c > p.n:
+						bufClass = "buf:pooled-larger"
+					case c == p.n:
 						bufClass = "buf:pooled-exact"
+					default:
+						t.Fatalf("put #%d %s: payload of %d bytes buffered in a pooled buffer of capacity %d", pi, p, p.n, c)
 					}
-				case cap(tgt.objectPayload) == p.n:
-					bufClass = "buf:other(cap==len)"
+				} else {
+					bufClass = "buf:fresh(pooled-one-too-small)"
+				}
+				if cap(tgt.objectPayload) != p.n {
+					labels = append(labels, "payload-buffer-with-spare-capacity")
 				}
 			}
 			withParity := 0
@@ -180,7 +216,7 @@ func TestVerifC21MultiRuleFromPool(t *testing.T) {
 				}
 			}
 			labels = append(labels, bufClass, fmt.Sprintf("rules=%d", len(p.rules)))
-			if bufClass == "buf:pooled-larger-than-payload" && len(p.rules) >= 2 && withParity >= 1 {
+			if strings.HasPrefix(bufClass, "buf:pooled-larger") && len(p.rules) >= 2 && withParity >= 1 {
 				// the capacity condition of the documented hazard is met
 				nontrivial = true
 				labels = append(labels, "hazard-condition:larger-pooled-buffer+multi-rule")
@@ -271,6 +307,7 @@ func TestVerifC21MultiRuleFromPool(t *testing.T) {
 			// release like distributedTarget.Close does: "encoded EC parts share memory, so only a
 			// single slice can be reused"
 			if len(tgt.encodedECParts) > 0 && len(tgt.encodedECParts[0]) > 0 {
+				reg(tgt.encodedECParts[0][0])
 				putPayload(tgt.encodedECParts[0][0])
 			}
 			tgt.encodedECParts = nil
